@@ -63,6 +63,7 @@ Fixpoint scope_cmd (ctx : list frame) (c : cmd) {struct c} : list reason :=
   | For _ _ b => scope_clist scope_cmd (FLoop :: ctx) b
   | Case arms => flat_map (fun a => match snd a with Some b => scope_clist scope_cmd ctx b | None => [] end) arms
   | FunDef _ body => scope_cmd [] body
+  | Redir _ c => match c with Leaf _ | FunDef _ _ | Redir _ _ => [RMalformed] | _ => scope_cmd ctx c end
   end.
 
 Definition scope_program (p : program) : list reason := flat_map (scope_clist scope_cmd []) p.
@@ -92,7 +93,7 @@ Fixpoint sub_any (f : cmd -> bool) (c : cmd) {struct c} : bool :=
                         || any_clist (sub_any f) (snd e)) elses
   | Loop _ c b => any_clist (sub_any f) c || any_clist (sub_any f) b
   | Case arms => existsb (fun a => match snd a with Some b => any_clist (sub_any f) b | None => false end) arms
-  | FunDef _ body => sub_any f body
+  | FunDef _ body | Redir _ body => sub_any f body
   end.
 
 Definition is_case (c : cmd) : bool := match c with Case _ => true | _ => false end.
@@ -117,6 +118,7 @@ Fixpoint has_call (c : cmd) {struct c} : bool :=
                         || any_clist has_call (snd e)) elses
   | Loop _ c b => any_clist has_call c || any_clist has_call b
   | Case arms => existsb (fun a => match snd a with Some b => any_clist has_call b | None => false end) arms
+  | Redir _ c => has_call c
   end.
 Definition pl_stage_call (p : pipeline) : bool :=
   match snd p with [_] => false | cs => existsb has_call cs end.
@@ -132,5 +134,6 @@ Definition cmd_stage_call (c : cmd) : bool :=
   | Case arms => existsb (fun a => match snd a with Some b => cl_stage_call b | None => false end) arms
   | _ => false
   end.
+(* ([Redir k c]: [sub_any] descends into [c], where [cmd_stage_call c] is evaluated) *)
 Definition stage_call_hazard (p : program) : bool :=
   existsb cl_stage_call p || existsb (any_clist (sub_any cmd_stage_call)) p.
